@@ -58,7 +58,8 @@ inductive PyExpr where
   | bin (op : BinOp) (l r : PyExpr)
   | cmp (l : PyExpr) (ops : List CmpOp) (rs : List PyExpr)   -- ast.Compare: ops and comparators
   | ife (c t e : PyExpr)                            -- ast.IfExp
-  | call (tgt : CallTarget) (args : List PyExpr)
+  | call (func : String) (args : List PyExpr)        -- `func`: the source text of the function expression ("f", "hp.f")
+  | callKw (func : String) (args : List PyExpr)      -- a call that also has keyword arguments; `args` = the positional ones
   | unsupported                                     -- BoolOp, Subscript, str constant, …
 deriving Repr
 
@@ -78,6 +79,7 @@ inductive GVal where
   | flt (q : Rat)                 -- a `float` global
   | int (q : Rat)                 -- an `int` global (not found by the translator's float-only lookup)
   | special (c : String) (q : Rat)  -- a float equal to math.pi / math.e / math.tau (KNOWN_CONSTANTS candidates)
+  | fn (tgt : CallTarget)           -- a callable member of the module namespace (under its name / dotted path)
   | other
 deriving DecidableEq, Repr
 
@@ -91,6 +93,14 @@ deriving Repr
 abbrev Prog := List FnDef
 
 def Prog.find (P : Prog) (f : String) : Option FnDef := List.find? (fun d => d.name == f) P
+
+/-- `_handle_call`'s lookup of the function expression among the callables the parent module can see
+(a snapshot of `inspect.getmembers(parent_module, callable)` and of the attribute chains used, keyed by
+source text).  Local variables play no role in it; anything that is not a callable member is `py_fn = None`. -/
+def resolveCall (G : List (String × GVal)) (func : String) : CallTarget :=
+  match G.lookup func with
+  | some (.fn t) => t
+  | _ => .unresolved
 
 /-! ## Symbolic side: syntax -/
 
@@ -566,15 +576,18 @@ def trExpr (T : Tables) (P : Prog) : Nat → List (String × GVal) → Syms → 
       let tt ← trExpr T P f G ctx t
       let ee ← trExpr T P f G ctx e
       mkPiecewise [(tt, cond), (ee, .boolLit true)]
-    | .call tgt args => do
+    | .call func args => do
       let sargs ← trArgs T P f G ctx args
-      match tgt with
+      match resolveCall G func with
       | .unresolved => .error (.refused "py_fn is None")
       | .known key => knownCall T key sargs
       | .user g =>
         match P.find g with
         | none => .error (.refused "py_fn is None")
         | some d => fnToSympy T P f d (some sargs)
+    | .callKw func args =>
+      -- `_handle_call` reads `node.args` only: keyword arguments are ignored
+      trExpr T P f G ctx (.call func args)
     | .unsupported => .error (.refused "NotImplementedError: expression type")
 
 def trArgs (T : Tables) (P : Prog) : Nat → List (String × GVal) → Syms → List PyExpr → TR (List SExpr)
@@ -751,11 +764,13 @@ def evalExpr (P : Prog) : Nat → List (String × GVal) → List String → PyEn
       match evalExpr P f G L env c with
       | some cv => if truthy cv then evalExpr P f G L env t else evalExpr P f G L env e
       | none => none
-    | .call tgt args =>
+    | .call func args =>
       match evalArgs P f G L env args with
       | none => none
       | some vs =>
-        match tgt with
+        -- CPython resolves the name in the local scope first: a local of that name is a number, not a function
+        if L.contains func then none else
+        match resolveCall G func with
         | .unresolved => none
         | .known key =>
           match pyMeaning key with
@@ -765,6 +780,7 @@ def evalExpr (P : Prog) : Nat → List (String × GVal) → List String → PyEn
           match P.find g with
           | none => none
           | some d => callFn P f d vs
+    | .callKw _ _ => none      -- keyword / default binding is not modelled (oracle-only stratum)
     | .unsupported => none
 
 def evalArgs (P : Prog) : Nat → List (String × GVal) → List String → PyEnv → List PyExpr → Option (List Val)
